@@ -303,6 +303,10 @@ def jobs(tier, seed):
     for c in ((1, 255, 0) if tier == "quick" else (1, 2, 128, 254, 255, 0)):
         out.append(Job("C15_apm_max_%d" % c, src, [dict(name="limit 255 (largest token value), cursor %d" % c, fn=check_apm_max, kw=dict(cursor=c), unwind=1200)],
                        flags=flags, native=False, max_paths=200000))
+    # configuration: exceptions requested by the embedder (RLBOX_USE_EXCEPTIONS) in a TU built with -fno-exceptions: a failed check still aborts
+    for op in ("get", "lk"):
+        out.append(Job("C15_apm_cfg_noexc_" + op, src, [dict(name="table %s limit<=6, RLBOX_USE_EXCEPTIONS + -fno-exceptions" % op, fn=check_apm, kw=dict(op=op, L=6), unwind=600)],
+                       flags=flags + ["-DRLBOX_USE_EXCEPTIONS"], native=False, max_paths=200000))
     out.append(Job("C15_apm_ctor", src, [dict(name="table constructor", fn=check_ctor, unwind=600)], flags=flags, native=False))
     depth = 3 if tier == "quick" else 4
     osrc = '#include "C15_owner.inc"\n'
